@@ -424,8 +424,28 @@ def run_check(prop, tier, root_seed):
                                   "plan": plan, "hang_s": 200}, variant,
                                  timeout=240)
         ok = False
+        if is_crash and kind != "crash":
+            # memory corruption does not always crash the same way (or at
+            # all) on the plain build: try again, then ask the sanitizer
+            for attempt in range(3):
+                kind, out = pool.run_one({"kind": "replay", "prop": prop,
+                                          "plan": plan, "hang_s": 200},
+                                         variant, timeout=240)
+                if kind == "crash":
+                    break
+            if kind != "crash" and variant == "plain":
+                build.ensure("asan")
+                k2, o2 = pool.run_one({"kind": "replay", "prop": prop,
+                                       "plan": plan, "hang_s": 300}, "asan",
+                                      timeout=330)
+                if k2 == "crash":
+                    kind, out, variant = k2, o2, "asan"
+                    v = dict(v, sig=crash_signature(o2))
+                    key = json.dumps(v["sig"], sort_keys=True)
         if kind == "crash":
-            ok = crash_signature(out) == v["sig"]
+            # any crash of the replay confirms a crash finding (the exact
+            # symptom of heap damage varies from process to process)
+            ok = is_crash or crash_signature(out) == v["sig"]
             detail = out["err"][-3000:]
         elif kind == "ok" and out["violation"]:
             ok = out["violation"]["sig"] == v["sig"]
@@ -436,7 +456,8 @@ def run_check(prop, tier, root_seed):
             kind2, out2 = pool.run_one({"kind": "replay", "prop": prop,
                                         "plan": v["plan"], "hang_s": 200},
                                        variant, timeout=240)
-            ok2 = (kind2 == "crash" and crash_signature(out2) == v["sig"]) or \
+            ok2 = (kind2 == "crash" and (is_crash or
+                                         crash_signature(out2) == v["sig"])) or \
                 (kind2 == "ok" and out2["violation"] and
                  out2["violation"]["sig"] == v["sig"])
             if not ok2:
